@@ -2703,6 +2703,14 @@ def main() -> int:
         print(f"EXTRACT WsSend.lean {'updated' if changed else 'unchanged'}")
     except Exception as e:
         fail("WsSend", f"{type(e).__name__}: {e}")
+    # C03: every path through WSStream.handle / app_send that closes the stream, step by step (tools/extract_wsseq.py)
+    CURRENT[0] = "WsSeq"
+    try:
+        import extract_wsseq
+        changed = write_if_changed(outd / "WsSeq.lean", extract_wsseq.run(src, sys.modules[__name__]))
+        print(f"EXTRACT WsSeq.lean {'updated' if changed else 'unchanged'}")
+    except Exception as e:
+        fail("WsSeq", f"{type(e).__name__}: {e}")
     # C17 / C19 / C20: object / key / filter choices of the WSGI wrapper, Config.from_object and the HTTPS redirect
     # (tools/extract_pure.py; one generated module and EXTRACT-FAIL tag per property)
     CURRENT[0] = "PureSites"
@@ -2712,7 +2720,7 @@ def main() -> int:
             changed = write_if_changed(outd / f"{name}.lean", text)
             print(f"EXTRACT {name}.lean {'updated' if changed else 'unchanged'}")
     except Exception as e:
-        for name in ("WsgiSites", "ConfigSites", "RedirectSites"):
+        for name in ("WsgiSites", "ConfigSites", "ConfigState", "RedirectSites"):
             CURRENT[0] = name
             fail(name, f"{type(e).__name__}: {e}")
     for f in FAILS:
